@@ -38,5 +38,11 @@ LEGS = [
      "corpus": "corpus/keyorder", "timeout": 600, "timeout_thorough": 3000},
     {"name": "kvengine", "harness": "kvengine", "model": "keyorder", "n_quick": 10, "n_thorough": 300,
      "corpus": "corpus/keyorder", "timeout": 600, "timeout_thorough": 3000},
+    # client-side merge of multi-shard range scans (harness and model owned by C20; theorem c11_merge_sorted): sorted
+    # per-shard streams over the comparer-stressing alphabet, 2..5 shards, through aggregateAndSortRangeScanAcrossShards
+    # directly and through clientImpl.RangeScan; compared with the extracted merge, verdicts scan:merged-out-of-slash-order
+    # / scan:merge-lost-or-duplicated
+    {"name": "client-merge", "harness": "client", "model": "client", "n_quick": 2000, "n_thorough": 60000,
+     "corpus": "corpus/client", "args": ["-mode", "merge"], "timeout": 600, "timeout_thorough": 3000},
 ]
 REGISTERED = True
